@@ -607,6 +607,71 @@ def replay_xyz(bad):
         o['replay'] = rep
 
 
+def job_pdb_columns(seed):
+    """pdb ATOM records are fixed-column text: the fields of the writer's record format against the substrings the reader cuts (both read from the AST:
+    the format literal of PDBWriter::WriteContainer, the std::string(line, pos, len) constructions of PDBReader::NextFrame)"""
+    rvc.reset()
+    fw = rvc.functions(rvc.ast('csg/src/libcsg/modules/io/pdbwriter.cc', 'PDBWriter'))
+    fr = rvc.functions(rvc.ast('csg/src/libcsg/modules/io/pdbreader.cc', 'PDBReader::NextFrame'))
+    if 'WriteContainer' not in fw or 'NextFrame' not in fr:
+        raise core.Undecided('front end: PDBWriter::WriteContainer / PDBReader::NextFrame not found')
+    obs = []
+    mfs = [{'name': 'PDBWriter::WriteContainer', 'file': 'csg/include/votca/csg/pdbwriter.h', 'ast_nodes': rvc.node_count(fw['WriteContainer'][0])},
+           {'name': 'PDBReader::NextFrame', 'file': 'csg/src/libcsg/modules/io/pdbreader.cc', 'ast_nodes': rvc.node_count(fr['NextFrame'][0])}]
+    lits = [n.get('value', '') for n in rvc.walk(fw['WriteContainer'][0]) if n.get('kind') == 'StringLiteral' and 'ATOM' in n.get('value', '')]
+    if len(lits) != 1:
+        raise core.Undecided('PDBWriter::WriteContainer: the ATOM record format literal was not found (%d candidates)' % len(lits))
+    fmt = lits[0].strip('"').replace('\\n', '')
+    fields, col = [], 0
+    for m in re.finditer(r'%(\d+)\$(-?)(\d+)(?:\.(\d+))?([a-z])|[^%]+', fmt):
+        if m.group(0).startswith('%'):
+            fields.append((col, int(m.group(3)), 'arg%s' % m.group(1))); col += int(m.group(3))
+        else:
+            col += len(m.group(0))
+    width = col
+    ex = Exec({}, {}, {}, None)
+    cuts = []
+    for n in rvc.walk(fr['NextFrame'][0]):
+        if n.get('kind') == 'CXXOperatorCallExpr' and len(n.get('inner', [])) == 3:
+            lhs, rhs = n['inner'][1], n['inner'][2]
+            while rhs.get('kind') in rvc.TRANSPARENT + ('CXXBindTemporaryExpr', 'MaterializeTemporaryExpr', 'CXXFunctionalCastExpr'):
+                rhs = rhs['inner'][0]
+            if rhs.get('kind') in ('CXXTemporaryObjectExpr', 'CXXConstructExpr') and len(rhs.get('inner', [])) == 3 and lhs.get('kind') == 'DeclRefExpr':
+                a0 = rhs['inner'][0]
+                while a0.get('kind') in rvc.TRANSPARENT:
+                    a0 = a0['inner'][0]
+                if a0.get('kind') == 'DeclRefExpr' and a0['referencedDecl']['name'] == 'line':
+                    try:
+                        cuts.append((lhs['referencedDecl']['name'], rvc._i(rvc.rval(ex.expr(rhs['inner'][1]))), rvc._i(rvc.rval(ex.expr(rhs['inner'][2])))))
+                    except Exception:
+                        pass
+    atom_cuts = [c for c in cuts if c[0] in ('atName', 'resName', 'resNum', 'x', 'y', 'z', 'elem_sym', 'charge')]
+    ok = len(atom_cuts) >= 6 and len(fields) >= 8
+    ob(obs, 'C08.pdb.columns/found', 'PDBWriter::WriteContainer + PDBReader::NextFrame', 'the record format of the writer and the column cuts of the reader are found in the AST', ok, 'fields %s; cuts %s' % (fields, atom_cuts), fns=mfs)
+    if not ok:
+        return obs
+    for nm in ('atName', 'resName', 'resNum', 'x', 'y', 'z'):
+        c = [k for k in atom_cuts if k[0] == nm]
+        hit = c and any(f[0] == c[0][1] and f[1] == c[0][2] for f in fields)
+        ob(obs, 'C08.pdb.columns/%s' % nm, 'PDBWriter::WriteContainer + PDBReader::NextFrame', 'the substring the reader cuts for %s is exactly one field of the writer record (same start column and width)' % nm, bool(hit), 'cut %s; writer fields %s' % (c, fields), fns=mfs)
+    need = max(c[1] for c in atom_cuts)
+    o = ob(obs, 'C08.pdb.columns/record-length', 'PDBWriter::WriteContainer + PDBReader::NextFrame',
+           'an ATOM record of the writer is long enough for every substring the reader cuts (std::string(line, pos, len) throws out_of_range for pos > size(), which the reader turns into "Misformated pdb file")',
+           width >= need, 'writer record has %d columns; the reader cuts at columns up to %d (%s)' % (width, need, [c for c in atom_cuts if c[1] > width]), fns=mfs,
+           wit={'writer_record_columns': width, 'reader_needs_column': need, 'cuts_beyond_record': str([c for c in atom_cuts if c[1] > width])})
+    if width < need:
+        try:
+            exe = native.build('C08.pdb', open(os.path.join(CDIR, 'replay_pdb.cc')).read(), [], sanitize=False, opt='-O1', libs=native.libs())
+            tmp = os.path.join(core.VERIF, 'build', 'tmp'); os.makedirs(tmp, exist_ok=True)
+            f = os.path.join(tmp, 'c08_%d.pdb' % os.getpid())
+            rc, out, err = native.execute(exe, [f], timeout=60)
+            o['replay'] = {'reproduced': rc == 1, 'cmd': '%s %s' % (exe, f), 'rc': rc, 'stdout': (out or '')[-500:], 'stderr': (err or '')[-200:],
+                           'against': 'real PDBWriter / PDBReader through the factories (libvotca_csg from the working tree): one bead, write then read'}
+        except core.Undecided as e:
+            o['replay'] = {'reproduced': False, 'error': str(e)}
+    return obs
+
+
 def job_dlpoly_box(seed):
     """DL_POLY CONFIG: the three cell lines of the writer, read by the reader, give the box back (cell vector i is line i; VOTCA keeps the box vectors as columns)"""
     rvc.reset()
@@ -763,7 +828,7 @@ def collect(obs):
 
 
 def run(tier, seed, only=None):
-    jobs = [(job_gro_box, (seed,)), (job_lammps_box, (seed,)), (job_dlpoly_box, (seed,)), (job_lammps_atoms, (seed,)), (job_gro_atoms, (seed,)), (job_writer_units, (seed,)), (job_count, (seed,))]
+    jobs = [(job_gro_box, (seed,)), (job_lammps_box, (seed,)), (job_dlpoly_box, (seed,)), (job_lammps_atoms, (seed,)), (job_gro_atoms, (seed,)), (job_writer_units, (seed,)), (job_pdb_columns, (seed,)), (job_count, (seed,))]
     if only:
         jobs = [j for j in jobs if re.search(only, j[0].__name__)] or jobs
     obs = core.pmap(jobs)
